@@ -109,7 +109,7 @@ package criteria_concealment
 
 // ---- registered names (what a request must say to select this object; what error messages list)
 //@ func (*CriteriaConcealment).Identifier
-//@   property C18 C20
+//@   property C18 C20 C01 C03 C04 C05 C06 C07 C08 C09 C11 C12 C13 C14 C15 C16 C17 C19
 //@   nopanic
 //@   ensures [name] result == "criteriaConcealment"
 
